@@ -42,6 +42,10 @@ func setBundleIDFromConsumableStore(ctx context.Context, bundle *Bundle) error {
 	for _, key := range keys {
 		bundleID, err = getBundleIDFromPath(key)
 		if err != nil {
+			if _, notMetadata := err.(model.ConsumableStorePathMetadataErr); notMetadata {
+				// a data file: keep looking for the bundle descriptor
+				continue
+			}
 			return err
 		}
 		if bundleID != "" {
